@@ -262,6 +262,20 @@ def verify_contract(con, contracts, tier="quick", externals=None):
     res.file = con.mod.path
     res.lineno = con.node.lineno
     res.assumptions = list(con.assumptions)
+    # mechanical assumption scan (DESIGN 4.3): everything this contract takes on trust
+    ext = sorted(getattr(con.cls, "externals", {}) or {})
+    if ext:
+        res.assumptions.append("%s: assumed (external) contracts for %s" % (con.short, ", ".join(ext)))
+    for dn, pol in (con.options.get("decorators") or {}).items():
+        res.assumptions.append("%s: decorator %s treated as %s" % (con.short, dn, pol))
+    if con.modular:
+        res.assumptions.append("%s: callee(s) used by contract (verified separately): %s" % (con.short, ", ".join(k.split("::")[-1] for k in con.modular)))
+    if con.bv:
+        res.assumptions.append("%s: integers modelled as signed %d-bit vectors with no-overflow obligations" % (con.short, con.bv))
+    if con.options.get("loop_keep"):
+        res.assumptions.append("%s: declared loop frame (not modified by loops): %s" % (con.short, ", ".join(con.options["loop_keep"])))
+    if con.options.get("opaque_yields"):
+        res.assumptions.append("%s: yielded values are not recorded (facts about them are ghost assertions at the yield)" % con.short)
     opts = dict(con.options)
     opts["contract"] = con
     if con.yield_shape is not None:
